@@ -141,8 +141,12 @@ def opt_value(draw, option, layer, variables, for_package):
                 return "/bin/%s-%s" % (layer, _ref(draw(st.sampled_from(free))))
         return "/bin/exe-%s" % layer
     if kind == "str":
-        form = draw(st.sampled_from(["lit", "ref", "ref", "ref2"])) if any_v else "lit"
+        form = draw(st.sampled_from(["lit", "ref", "ref", "ref2", "blank"])) if any_v else \
+            draw(st.sampled_from(["lit", "lit", "lit", "blank"]))
         tag = "%s-%s" % (option.split(".")[-1][:3], layer)
+        if form == "blank":
+            # an explicitly empty string is a value: it overrides whatever lower layers define
+            return ""
         if form == "lit":
             return tag
         a = draw(st.sampled_from(any_v))
